@@ -76,4 +76,31 @@ let handle (cmd : string) (rest : string) : string =
              (String.concat "." (List.map (fun x -> string_of_int (int_of_n x)) line))
              (int_of_nat ln) (int_of_nat col)
        | [] -> failwith "E")
+  | "R" ->
+      (* R pre ; post ; inf ; tokens   with pre/post = o:p,...  inf = o:p:ra,...  tokens = a1 e0 o0 i2 *)
+      (match String.split_on_char ';' rest with
+       | [ps; qs; is; ts] ->
+           let pairs s = List.map (fun w -> List.map int_of_string (String.split_on_char ':' w))
+                           (List.filter (fun w -> w <> "") (String.split_on_char ',' (String.trim s))) in
+           let pt = pairs ps and qt = pairs qs and it = pairs is in
+           let look tbl o = try List.nth (List.find (fun r -> List.hd r = o) tbl) 1 with Not_found -> 0 in
+           let tb = { pre = (fun o -> nat_of_int (look pt (int_of_nat o)));
+                      post = (fun o -> nat_of_int (look qt (int_of_nat o)));
+                      inf = (fun o -> let r = try List.find (fun r -> List.hd r = int_of_nat o) it
+                                              with Not_found -> [0; 0; 0] in
+                                      (nat_of_int (List.nth r 1), List.nth r 2 <> 0)) } in
+           let tok w = match w.[0] with
+             | 'a' -> KPrim (nat_of_int (tail_int w)) | 'e' -> KPre (nat_of_int (tail_int w))
+             | 'o' -> KPost (nat_of_int (tail_int w)) | 'i' -> KInf (nat_of_int (tail_int w))
+             | _ -> failwith "token" in
+           let toks = List.map tok (words ts) in
+           let rec show = function
+             | TPrim a -> Printf.sprintf "a%d" (int_of_nat a)
+             | TPre (o, r) -> Printf.sprintf "(e%d %s)" (int_of_nat o) (show r)
+             | TPost (l, o) -> Printf.sprintf "(o%d %s)" (int_of_nat o) (show l)
+             | TIn (l, o, r) -> Printf.sprintf "(i%d %s %s)" (int_of_nat o) (show l) (show r) in
+           (match Model.parse0 tb toks with
+            | Some (t, r) -> Printf.sprintf "%s %d" (show t) (List.length r)
+            | None -> "ERR")
+       | _ -> failwith "R")
   | _ -> failwith ("unknown command " ^ cmd)
